@@ -29,7 +29,7 @@ REQUIRED_REACH = ['model:accept', 'model:reject-name', 'model:either', 'construc
                   'requests-on-accepted', 'accepted-with:kind:kwreq:endpoint', 'accepted-with:kind:kwdef:request',
                   'accepted-with:form:lambda', 'accepted-with:form:callable_object', 'accepted-with:form:decorated',
                   'accepted-with:form:classmethod', 'accepted-with:mw-app-request', 'accepted-with:mw-route-render',
-                  'accepted-with:nested:2']
+                  'accepted-with:nested:2', 'accepted-with:built-via-add', 'rejected-by-add']
 NSHARDS = 16
 
 
